@@ -310,5 +310,35 @@ def normalise(j, known):
                     done.append(p)
         if not changed:
             break
+    # a known function that has grown a flag parameter (`drop_inner_table(.., keep_allocation: bool)`): at a call site that passes a
+    # literal for it the callee is analysed in that context (inlined there; the constant branch is then pruned), the body itself stays
+    fps = fingerprints()
+    cfg = j.get("header", {}).get("cfg")
+    for p, b in list(bodies.items()):
+        fm = fps.get(p)
+        if not fm or "names" not in fm or b.get("kind") not in ("Fn", "AssocFn") or len(b["blocks"]) > 120:
+            continue
+        names = [b["locals"][q].get("name") for q in range(1, b["arg_count"] + 1)]
+        new_flags = [q for q in range(b["arg_count"]) if names[q] not in fm["names"] and b["locals"][q + 1]["ty"]["s"] == "bool"]
+        if not new_flags or b["arg_count"] <= len(fm["args"]):
+            continue
+        if any(bb["term"]["k"] == "call" and _callee_path(bb["term"]) == p for bb in b["blocks"]):
+            continue
+        for q2, c in bodies.items():
+            if q2 == p:
+                continue
+            guard_ = 0
+            progress = True
+            while progress and guard_ < 20 and len(c["blocks"]) < MAX_BLOCKS:
+                progress = False
+                guard_ += 1
+                for bi, bb in enumerate(c["blocks"]):
+                    t = bb["term"]
+                    if t["k"] == "call" and _callee_path(t) == p and all(q < len(t["args"]) and t["args"][q]["k"] == "const" for q in new_flags):
+                        inline_call(c, bi, b)
+                        if p not in done:
+                            done.append(p + " (at call sites passing a literal flag)")
+                        progress = True
+                        break
     j["bodies"] = [b for b in j["bodies"] if b["path"] in bodies]
     return done
